@@ -531,6 +531,12 @@ fn check_assign_bounds(sink: &Value, source: &Value, ixes: &[Value]) -> MResult<
   if shape.len() != 2 {
     return Ok(());
   }
+  // The source may be a variable: its length is the length of the value it holds.
+  let held;
+  let source = match source {
+    Value::MutableReference(reference) => { held = reference.borrow().clone(); &held }
+    source => source,
+  };
   // `x[ixes] = v` with a vector source pairs the i-th index with the i-th
   // source element: a source shorter than the index list would be read past
   // its end after the first elements had been written.
